@@ -114,6 +114,84 @@ theorem total_range (l : List (Spend ℝ)) (slack : ℝ)
     0 ≤ (totalCore l slack).delta ∧ (totalCore l slack).delta ≤ 1 :=
   totalCore_delta_range l slack hl hs0 hs1
 
+/-! ### along a run: the total is the KOV pair of the ACCEPTED spends -/
+
+section generic
+variable {α : Type} [OfNat α 0] [OfNat α 1] [OfNat α 2] [Add α] [Sub α] [Mul α] [Div α] [Neg α]
+  [LT α] [LE α] [DecidableLT α] [DecidableLE α] [NatCast α] [Transc α] [HasInf α]
+
+/-- the spend a single operation gets recorded: `[(e, d)]` for an accepted `spend(e, d)`, nothing otherwise -/
+def acceptedBy (a : Acc α) : AOp α → List (Spend α)
+  | .spend e d => match a.spend e d with
+    | .ok _ => [⟨e, d⟩]
+    | .error _ => []
+  | _ => []
+
+/-- the spends an operation sequence gets recorded on accountant `a` (the harness's ledger) -/
+def acceptedSpends (a : Acc α) : List (AOp α) → List (Spend α)
+  | [] => []
+  | op :: rest => acceptedBy a op ++ acceptedSpends (a.step op).1 rest
+
+theorem step_spent (a : Acc α) (op : AOp α) : (a.step op).1.spent = a.spent ++ acceptedBy a op := by
+  cases op with
+  | spend e d =>
+    simp only [acceptedBy, Acc.step]
+    cases h : a.spend e d with
+    | ok a' =>
+      unfold Acc.spend at h
+      simp only [bind, Except.bind, pure, Except.pure] at h
+      split at h
+      · cases h
+      · cases h; simp
+    | error x => simp
+  | check e d => simp [Acc.step, acceptedBy]
+  | setSlack s =>
+    simp only [acceptedBy, Acc.step]
+    cases h : a.setSlack s with
+    | ok a' =>
+      unfold Acc.setSlack at h
+      simp only [bind, Except.bind, pure, Except.pure] at h
+      split at h
+      · cases h
+      · split at h
+        · cases h
+        · split at h
+          · cases h
+          · cases h; simp
+    | error x => simp
+  | query => simp [Acc.step, acceptedBy]
+
+/-- ★ (any carrier) after any operation sequence the recorded history is the initial one followed by exactly the
+accepted spends: refused attempts (whatever the error kind), checks, slack changes and queries record nothing -/
+theorem run_spent_eq (ops : List (AOp α)) (a : Acc α) : (a.run ops).spent = a.spent ++ acceptedSpends a ops := by
+  unfold Acc.run
+  induction ops generalizing a with
+  | nil => simp [acceptedSpends]
+  | cons op rest ih =>
+    simp only [List.foldl_cons, acceptedSpends]
+    rw [ih, step_spent, List.append_assoc]
+end generic
+
+/-- C05 along a run: after ANY sequence of operations on an accountant over ℝ, `total()` is the KOV pair of the
+initial spends followed by the accepted ones, at the current slack -/
+theorem run_total_kov (a : Acc ℝ) (ops : List (AOp ℝ)) (t : Tot ℝ) (h : (a.run ops).total = .ok t) :
+    t.delta = kovDelta (a.spent ++ acceptedSpends a ops) (a.run ops).slack ∧
+    (0 < (a.run ops).slack → t.eps = kov (a.spent ++ acceptedSpends a ops) (a.run ops).slack) ∧
+    ((a.run ops).slack = 0 → t.eps = sumEps (a.spent ++ acceptedSpends a ops)) := by
+  unfold Acc.total at h
+  obtain ⟨rfl, -, -, -⟩ := mkBudget_ok _ _ t h
+  rw [← run_spent_eq]
+  refine ⟨total_delta_eq _ _, total_eps_eq _ _, ?_⟩
+  intro h0
+  rw [h0]
+  exact totalCore_eps_zero _
+/-- non-vacuity of `run_total_kov`: on a fresh accountant with ceiling (1, 0) the sequence
+[spend(1/2, 0) accepted, spend(-1, 0) refused as invalid, spend(1, 0) refused as over budget] records exactly [(1/2, 0)] -/
+example : acceptedSpends (⟨1, 0, 0, 0, []⟩ : Acc ℝ) [.spend (1 / 2) 0, .spend (-1) 0, .spend 1 0] = [⟨1 / 2, 0⟩] := by
+  norm_num [acceptedSpends, acceptedBy, Acc.step, Acc.spend, Acc.check, checkEpsDelta, feq, Acc.unlimited, totalCore,
+    epsSums, totalDeltaSafe, sortAsc, insertSorted, mkBudget, bind, Except.bind, pure, Except.pure, HasInf.isPosInf,
+    List.forM, List.foldl, throw, throwThe, MonadExceptOf.throw]
+
 /-! ### non-vacuity -/
 
 /-- a concrete history on which the statements are about something: two spends, zero slack -/
